@@ -1,18 +1,12 @@
 import LentilVerif.Lemmas.FftDft
+import LentilVerif.Lemmas.Fourier
 import Mathlib.Analysis.Real.Sqrt
 import Mathlib.Analysis.SpecialFunctions.Trigonometric.Basic
 import Mathlib.Analysis.SpecialFunctions.Complex.Log
-/-! The intended instantiation `K = ℂ`, `R = ℝ` of the model's scalar classes, and the two analytic facts the generic
+/-! At the instantiation `K = ℂ`, `R = ℝ` of the model's scalar classes (instances in Lemmas/Fourier.lean), the two analytic facts the generic
 FFT = DFT theorem needs: `exp(-2 pi i t/n)` is `n`-periodic in the integer `t`; `1/sqrt(ab) = sqrt|1/a · 1/b|`. -/
 namespace Lentil
 open Complex
-
-/-- the intended instantiation of the model's scalar classes -/
-@[reducible] noncomputable def realLikeReal : RealLike ℝ := ⟨fun n => (n : ℝ), 2 * Real.pi, Real.sqrt, fun x => |x|⟩
-@[reducible] noncomputable def cxLikeComplex : CxLike ℂ ℝ :=
-  ⟨fun t => Complex.exp ((t : ℂ) * I), fun r => (r : ℂ), fun z => (starRingEnd ℂ) z, fun z n => z / (n : ℂ)⟩
-
-attribute [local instance] realLikeReal cxLikeComplex
 
 theorem rootPeriodic_complex : RootPeriodic ℂ ℝ := by
   intro n a b h
